@@ -295,6 +295,7 @@ class Runner:
         self.frame_ids = {}
         self.frame_dig = {}
         self.nss = {}
+        self.shared_env = None
         self.designs = []  # (f, d, dm | None, digest)
         self.results = []  # (obj, digest)
         self.mode = "error"
@@ -303,9 +304,21 @@ class Runner:
 
     def _exec(self, op):
         kind = op[0]
-        if kind in ("B", "BT"):
+        if kind in ("B", "BT", "BE"):
             key = self.key(op)
             ns = self.namespace(key)
+            if kind == "BE":
+                # the caller owns ONE Environment object and hands it to every such build
+                if self.shared_env is None:
+                    self.shared_env = self.F.environment.Environment([{}, {"np": np}])
+                    self.shared_env_len = len(self.shared_env._namespaces)
+                dm = self.F.design_matrices(FORMULAS[op[1]], self.frame(key), env=self.shared_env, extra_namespace=ns)
+                m = self.m
+                m.ev("caller-namespace-untouched")
+                if len(self.shared_env._namespaces) != self.shared_env_len:
+                    m.violation("caller-namespace-untouched", "the caller's Environment object grew", key="environment-changed")
+                    self.shared_env_len = len(self.shared_env._namespaces)
+                return dm
             dm = self.F.design_matrices(FORMULAS[op[1]], self.frame(key), extra_namespace=ns)
             return dm
         if kind in ("EC", "EG"):
@@ -322,7 +335,7 @@ class Runner:
         raise ValueError(kind)
 
     def key(self, op):
-        return ("d%d" % op[2]) if op[0] == "B" else ("t%d_%d" % (op[1], op[2]))
+        return ("d%d" % op[2]) if op[0] in ("B", "BE") else ("t%d_%d" % (op[1], op[2]))
 
     def frame(self, key):
         fr = get_frame(self.frames, key)
@@ -339,7 +352,7 @@ class Runner:
 
     def expected(self, op):
         kind = op[0]
-        if kind in ("B", "BT"):
+        if kind in ("B", "BT", "BE"):
             return model_result("B", op[1], self.key(op), "error", None, self.pristine)
         if kind in ("EC", "EG"):
             f, dtrain, dm, _ = self.designs[op[1]]
@@ -374,7 +387,7 @@ class Runner:
             # now the retried operation must behave as in fresh state (falls through)
         try:
             res = self._exec(op)
-            if op[0] in ("B", "BT"):
+            if op[0] in ("B", "BT", "BE"):
                 got = design_digest(res)
             elif op[0] == "SC":
                 got = None
@@ -382,7 +395,7 @@ class Runner:
                 got = res if isinstance(res, str) else matrix_digest(res)
         except Exception as e:
             res, got = None, ("raise", type(e).__name__)
-        if op[0] in ("B", "BT"):
+        if op[0] in ("B", "BT", "BE"):
             self.designs.append((op[1], self.key(op), res, got if res is not None else None))
         elif op[0] in ("EC", "EG") and res is not None and not isinstance(res, str):
             self.results.append((res, got))
@@ -463,6 +476,7 @@ def run_history(history, frames, m, faults=None):
 def ops_after(ndesigns, nf, nd):
     ops = [("B", f, d) for f in range(nf) for d in range(nd)]
     ops += [("BT", f, 0) for f in range(nf)]
+    ops += [("BE", nf - 1, d) for d in range(nd)]
     for k in range(ndesigns):
         ops += [("EC", k, d) for d in range(nd)] + [("EG", k, d) for d in range(nd)]
     ops += [("SC", md) for md in MODES]
@@ -475,7 +489,7 @@ def enum_histories(maxlen, nf, nd):
         if len(prefix) == maxlen:
             return
         for op in ops_after(nb, nf, nd):
-            yield from rec(prefix + [op], nb + (op[0] in ("B", "BT")))
+            yield from rec(prefix + [op], nb + (op[0] in ("B", "BT", "BE")))
 
     for f in range(nf):
         for d in range(nd):
@@ -489,7 +503,7 @@ QUICK_D = [0, 2, 3]
 def remap(h):
     out = []
     for op in h:
-        if op[0] in ("B", "BT"):
+        if op[0] in ("B", "BT", "BE"):
             out.append([op[0], QUICK_F[op[1]], QUICK_D[op[2]]])
         elif op[0] in ("EC", "EG"):
             out.append([op[0], op[1], QUICK_D[op[2]]])
@@ -505,7 +519,7 @@ def random_history(rng, nf, nd):
     for _ in range(L - 1):
         r = rng.random()
         if r < 0.25:
-            h.append([rng.choice(["B", "B", "BT"]), rng.randrange(nf), rng.randrange(nd)]); nb += 1
+            h.append([rng.choice(["B", "B", "BT", "BE"]), rng.randrange(nf), rng.randrange(nd)]); nb += 1
         elif r < 0.6:
             h.append(["EC", rng.randrange(nb), rng.randrange(nd)])
         elif r < 0.85:
@@ -573,8 +587,8 @@ def digest_history(hist, frames):
     out, designs = [], []
     for op in hist:
         try:
-            if op[0] in ("B", "BT"):
-                key = ("d%d" % op[2]) if op[0] == "B" else ("t%d_%d" % (op[1], op[2]))
+            if op[0] in ("B", "BT", "BE"):
+                key = ("d%d" % op[2]) if op[0] in ("B", "BE") else ("t%d_%d" % (op[1], op[2]))
                 dm = formulae.design_matrices(FORMULAS[op[1]], get_frame(frames, key), extra_namespace=make_ns(key))
                 designs.append(dm)
                 out.append(design_digest(dm))
@@ -589,7 +603,7 @@ def digest_history(hist, frames):
                 part = dm.common if op[0] == "EC" else dm.group
                 out.append("none" if part is None else matrix_digest(part.evaluate_new_data(frames["d%d" % op[2]])))
         except Exception as e:
-            if op[0] in ("B", "BT"):
+            if op[0] in ("B", "BT", "BE"):
                 designs.append(None)
             out.append("raise:" + type(e).__name__)
     formulae.config["EVAL_UNSEEN_CATEGORIES"] = "error"
